@@ -422,45 +422,61 @@ def orPanic {α} : Option α → Except Err α
   | some x => .ok x
   | none => .error .panic
 
-/-- `FloatHistogram.Add` (`neg = false`) / `Sub` (`neg = true`); the receiver is `h`. -/
-def addSub (neg : Bool) (h other : FH) : Except Err AddRes := do
-  if h.isCustom != other.isCustom then throw .incompatible
-  let (hint, crc) := adjustCounterReset h.hint other.hint
-  let h := { h with hint := hint }
-  let h ← (if !h.isCustom then do
-      let (h', ozc) ← orPanic (reconcileZeroBuckets h other)
-      pure { h' with zc := if neg then h'.zc - ozc else h'.zc + ozc }
-    else pure h)
-  let h := { h with count := if neg then h.count - other.count else h.count + other.count,
-                    sum := if neg then h.sum - other.sum else h.sum + other.sum }
-  if h.isCustom then
-    if h.cv = other.cv then
-      let (s, b) ← orPanic (addBuckets h.schema h.zt neg h.ps h.pb other.ps other.pb)
-      pure ⟨{ h with ps := s, pb := b }, crc, false⟩
-    else
-      let inter := intersectCustomBucketBounds h.cv other.cv
-      let (s, b) := addCustomMismatch neg h.ps h.pb h.cv other.ps other.pb other.cv inter
-      pure ⟨{ h with ps := s, pb := b, cv := inter }, crc, true⟩
+/-- Type of `addBuckets` (schema, threshold, negative, spansA, bucketsA, spansB, bucketsB). -/
+abbrev AddBucketsFn := Int → ZT → Bool → List Span → List Rat → List Span → List Rat → Option (List Span × List Rat)
+
+/-- The part of `Add`/`Sub` after the zero buckets are reconciled (exponential schemas): bring the finer
+    operand to the coarser schema (`mustReduceResolution`), then `addBuckets` per sign. `none` = panic.
+    The `addBuckets` implementation is a parameter so that theorems can be stated against its contract. -/
+def alignAndAdd (ab : AddBucketsFn) (neg : Bool) (h other : FH) : Option FH :=
+  if other.schema < h.schema then
+    let k := (h.schema - other.schema).toNat
+    match reduceResolution h.ps h.pb k, reduceResolution h.ns h.nb k with
+    | some p, some n =>
+      match ab other.schema h.zt neg p.1 p.2 other.ps other.pb, ab other.schema h.zt neg n.1 n.2 other.ns other.nb with
+      | some P, some N => some { h with schema := other.schema, ps := P.1, pb := P.2, ns := N.1, nb := N.2 }
+      | _, _ => none
+    | _, _ => none
+  else if other.schema > h.schema then
+    let k := (other.schema - h.schema).toNat
+    match reduceResolution other.ps other.pb k, reduceResolution other.ns other.nb k with
+    | some p, some n =>
+      match ab h.schema h.zt neg h.ps h.pb p.1 p.2, ab h.schema h.zt neg h.ns h.nb n.1 n.2 with
+      | some P, some N => some { h with ps := P.1, pb := P.2, ns := N.1, nb := N.2 }
+      | _, _ => none
+    | _, _ => none
   else
-    let mut hps := h.ps; let mut hpb := h.pb; let mut hns := h.ns; let mut hnb := h.nb
-    let mut ops := other.ps; let mut opb := other.pb; let mut ons := other.ns; let mut onb := other.nb
-    let mut schema := h.schema
-    if other.schema < h.schema then
-      let k := (h.schema - other.schema).toNat
-      let (s, b) ← orPanic (reduceResolution hps hpb k)
-      hps := s; hpb := b
-      let (s, b) ← orPanic (reduceResolution hns hnb k)
-      hns := s; hnb := b
-      schema := other.schema
-    else if other.schema > h.schema then
-      let k := (other.schema - h.schema).toNat
-      let (s, b) ← orPanic (reduceResolution ops opb k)
-      ops := s; opb := b
-      let (s, b) ← orPanic (reduceResolution ons onb k)
-      ons := s; onb := b
-    let (ps, pb) ← orPanic (addBuckets schema h.zt neg hps hpb ops opb)
-    let (ns, nb) ← orPanic (addBuckets schema h.zt neg hns hnb ons onb)
-    pure ⟨{ h with schema := schema, ps := ps, pb := pb, ns := ns, nb := nb }, crc, false⟩
+    match ab h.schema h.zt neg h.ps h.pb other.ps other.pb, ab h.schema h.zt neg h.ns h.nb other.ns other.nb with
+    | some P, some N => some { h with ps := P.1, pb := P.2, ns := N.1, nb := N.2 }
+    | _, _ => none
+
+/-- `FloatHistogram.Add` (`neg = false`) / `Sub` (`neg = true`); the receiver is `h`. -/
+def addSubG (ab : AddBucketsFn) (neg : Bool) (h other : FH) : Except Err AddRes :=
+  if h.isCustom != other.isCustom then .error .incompatible
+  else
+    let (hint, crc) := adjustCounterReset h.hint other.hint
+    let h := { h with hint := hint }
+    let pm := fun (x y : Rat) => if neg then x - y else x + y
+    if h.isCustom then
+      let h := { h with count := pm h.count other.count, sum := pm h.sum other.sum }
+      if h.cv = other.cv then
+        match ab h.schema h.zt neg h.ps h.pb other.ps other.pb with
+        | some r => .ok ⟨{ h with ps := r.1, pb := r.2 }, crc, false⟩
+        | none => .error .panic
+      else
+        let inter := intersectCustomBucketBounds h.cv other.cv
+        let r := addCustomMismatch neg h.ps h.pb h.cv other.ps other.pb other.cv inter
+        .ok ⟨{ h with ps := r.1, pb := r.2, cv := inter }, crc, true⟩
+    else
+      match reconcileZeroBuckets h other with
+      | none => .error .panic
+      | some (h', ozc) =>
+        let h' := { h' with zc := pm h'.zc ozc, count := pm h'.count other.count, sum := pm h'.sum other.sum }
+        match alignAndAdd ab neg h' other with
+        | some r => .ok ⟨r, crc, false⟩
+        | none => .error .panic
+
+def addSub : Bool → FH → FH → Except Err AddRes := addSubG addBuckets
 
 /-! ### ReduceResolution / CopyToSchema / Mul / Div / ToFloat -/
 
